@@ -252,7 +252,16 @@ func TestVerifC06RoundTrip(t *testing.T) {
 			return
 		}
 		st.Class("sni:" + kind)
-		vf06RoundTrip(st, rt, src, uc.HandshakeState.Hello.Raw, f, fill, cm.RandSeed)
+		raw1 := uc.HandshakeState.Hello.Raw
+		// a captured hello need not come from utls: other clients offer more compression methods than {null}
+		if rapid.IntRange(0, 9).Draw(rt, "foreign_compression") == 0 {
+			comp := [][]uint8{{1, 0}, {0, 1}, {0, 1, 64}}[rapid.IntRange(0, 2).Draw(rt, "comp")]
+			if h := vfParseClientHello(raw1); len(h.Violations) == 0 && h.HasExts {
+				raw1 = vf06WithCompression(h, comp)
+				st.Class("h1-foreign-compression")
+			}
+		}
+		vf06RoundTrip(st, rt, src, raw1, f, fill, cm.RandSeed)
 	})
 }
 
